@@ -79,6 +79,16 @@ type ReplayFile struct {
 	LogHash   string          `json:"event_log_hash"`
 	Decoded   []string        `json:"decoded,omitempty"`
 	OrigTape  int             `json:"original_tape_length"`
+	// History is set when the violation depends on state the code under test keeps across runs of one
+	// process (package-level pools, caches): the replay is then the worker's whole run sequence.
+	History *RunHistory `json:"history,omitempty"`
+}
+
+// RunHistory identifies the sequence of runs a worker executed before (and including) the failing one.
+type RunHistory struct {
+	Start  int `json:"start"`
+	Index  int `json:"index"`
+	Stride int `json:"stride"`
 }
 
 // WorkerSummary is what one worker reports.
@@ -227,6 +237,7 @@ func cmdWorker(args []string) int {
 	sum.SweepTotal = len(sweep)
 	opts := props.Opts{Tier: *tier}
 	hardStop := start.Add(*budget * 4)
+	workerHistory = RunHistory{Start: *startAt, Index: *index, Stride: *stride}
 	for i := *startAt + *index; ; i += *stride {
 		isSweep := i < len(sweep)
 		if !isSweep && time.Since(start) > *budget {
@@ -358,8 +369,14 @@ func replayOnce(p *props.Property, vals []uint32, sig string, o props.Opts) (boo
 func minimise(p *props.Property, vals []uint32, sig string, o props.Opts, maxAttempts int) []uint32 {
 	best := append([]uint32(nil), vals...)
 	attempts := 0
+	began := time.Now()
+	limit := 45 * time.Second
+	if maxAttempts < 500 {
+		limit = 10 * time.Second
+	}
 	try := func(cand []uint32) bool {
-		if attempts >= maxAttempts {
+		if attempts >= maxAttempts || time.Since(began) > limit {
+			attempts = maxAttempts
 			return false
 		}
 		attempts++
@@ -451,6 +468,8 @@ func trimZeros(v []uint32) []uint32 {
 	return append([]uint32(nil), v[:n]...)
 }
 
+var workerHistory RunHistory
+
 func minimiseAndWrite(p *props.Property, vals []uint32, v world.Violation, o props.Opts, verifDir string, vseed uint64, idx int, rs uint64, tree string, attempts int) string {
 	min := minimise(p, vals, v.Signature, o, attempts)
 	ko := o
@@ -461,8 +480,19 @@ func minimiseAndWrite(p *props.Property, vals []uint32, v world.Violation, o pro
 		min = vals
 		ok, out, used = replayOnce(p, min, v.Signature, ko)
 		if !ok {
-			fmt.Fprintf(os.Stderr, "verif: violation %s did not reproduce from its own tape (nondeterminism)\n", v.Signature)
-			return ""
+			// the violation depends on what earlier runs of this process left behind in the code under
+			// test (process-global state): the replay is the whole run sequence of this worker
+			fmt.Fprintf(os.Stderr, "verif: violation %s does not reproduce from its own tape alone; writing a run-history replay\n", v.Signature)
+			h := workerHistory
+			rf := ReplayFile{Property: p.ID, VerifSeed: vseed, RunIndex: idx, RunSeed: rs, Tier: o.Tier, TreeHash: tree, Tape: trimZeros(vals), OrigTape: len(vals), Violation: v, History: &h}
+			dir := filepath.Join(verifDir, "replays")
+			os.MkdirAll(dir, 0o755)
+			path := filepath.Join(dir, fmt.Sprintf("%s-%d-%d.json", p.ID, vseed, idx))
+			b, _ := json.MarshalIndent(rf, "", " ")
+			if err := os.WriteFile(path, b, 0o644); err != nil {
+				return ""
+			}
+			return path
 		}
 	}
 	rf := ReplayFile{Property: p.ID, VerifSeed: vseed, RunIndex: idx, RunSeed: rs, Tier: o.Tier, TreeHash: tree, Tape: trimZeros(used), OrigTape: len(vals), LogHash: strconv.FormatUint(out.Stats.LogHash, 16)}
@@ -515,6 +545,36 @@ func cmdReplay(args []string) int {
 	}
 	debug.SetGCPercent(-1)
 	startWatchdog(rf.Property)
+	if rf.History != nil {
+		var sweep [][]uint32
+		if p.Sweep != nil {
+			sweep = p.Sweep(rf.Tier)
+		}
+		var out props.Outcome
+		n := 0
+		for i := rf.History.Start + rf.History.Index; i <= rf.RunIndex; i += rf.History.Stride {
+			rs := runSeed(rf.VerifSeed, p.ID, i)
+			var tape *simrt.Tape
+			if i < len(sweep) {
+				tape = simrt.PrefixTape(rs, sweep[i])
+			} else {
+				tape = simrt.NewTape(rs)
+			}
+			out = execRun(p, tape, props.Opts{Tier: rf.Tier, KeepLog: i == rf.RunIndex})
+			n++
+			if n%64 == 0 {
+				runtime.GC()
+			}
+		}
+		for _, v := range out.Viols {
+			if v.Signature == rf.Violation.Signature {
+				fmt.Printf("REPRODUCED property=%s signature=%s (run-history replay: %d runs of one process)\n  %s\n", rf.Property, v.Signature, n, v.Msg)
+				return 1
+			}
+		}
+		fmt.Printf("NOT-REPRODUCED property=%s signature=%s (run-history replay of %d runs)\n", rf.Property, rf.Violation.Signature, n)
+		return 3
+	}
 	ok, out, _ := replayOnce(p, rf.Tape, rf.Violation.Signature, props.Opts{Tier: rf.Tier, KeepLog: true})
 	if *verbose {
 		for _, l := range out.Log {
